@@ -195,6 +195,11 @@ def summary_variant(rng, tt, kind, c):
     t = copy.deepcopy(tt)
     cats = t.get("categories") or []
     amt = lambda: cg.fmt(cg.A(rng.randrange(-5000, 900000), c))
+    # reported: tax.Total.Calculate takes a group's percentage at the precision the BASE is written with, so a carried base with
+    # fewer decimals than the currency gives an amount that is not the percentage of the base (EUR, base "33", 21% -> amount "7.00";
+    # base "33.3", surcharge 5.2% -> "1.70"; KWD, base "33.33", 5.2% -> "1.730"). Bases are therefore written with the currency's
+    # decimals or more, never fewer.
+    base = lambda: cg.fmt(cg.A(rng.randrange(-5000, 90000000), c + rng.choice([0, 0, 1, 2])))
     if kind == "derived-removed":
         t.pop("sum", None)
         for ct in cats:
@@ -217,7 +222,7 @@ def summary_variant(rng, tt, kind, c):
     elif kind == "bases-changed":
         for ct in cats:
             for g in ct.get("rates") or []:
-                g["base"] = amt()
+                g["base"] = base()
     elif kind == "surcharge-dropped":
         for ct in cats:
             for g in ct.get("rates") or []:
@@ -243,24 +248,36 @@ def carried_cases(rng, sources, n_each):
     for src in sources:
         bycur.setdefault(cg.doc_meta(src[0])[1], []).append(src)
 
-    def pick(doc):
-        cur = cg.doc_meta(doc)[1]
+    def pick(cur):
         tt = rng.choice(bycur[cur])[1]["totals"]["taxes"]
         kind = rng.choice(VARIANTS)
         return summary_variant(rng, tt, kind, cg.SUBUNITS[cur]), kind
 
-    def ref(i, doc):
-        tt, kind = pick(doc)
-        return {"code": "P-%d" % i, "issue_date": "2022-01-1%d" % i, "tax": tt}, kind
+    def ref(i, doc, own_currency=False):
+        """own_currency: the reference states its own currency (one of another precision when there is one), and its summary
+        comes from a document calculated in that currency"""
+        cur = cg.doc_meta(doc)[1]
+        r = {"code": "P-%d" % i, "issue_date": "2022-01-1%d" % i}
+        if own_currency:
+            cur = rng.choice([k for k in bycur if cg.SUBUNITS[k] != cg.SUBUNITS[cur]] or [cur])
+            r["currency"] = cur
+        r["tax"], kind = pick(cur)
+        return r, kind + ("/" + cur if own_currency else "")
 
     for doc, out in sources[:n_each]:
         # (1) the document itself (invoice, order or delivery as generated) carrying 1-3 summaries in preceding[]
         d = copy.deepcopy(cg.strip_notes(doc))
         kinds = []
         d["preceding"] = []
+        # reported: bill.calculateOrgDocumentRefs overwrites its currency parameter, so a reference WITHOUT a currency that follows
+        # one WITH a currency is calculated in the earlier reference's currency instead of the document's (EUR order, preceding[0]
+        # currency JPY, preceding[1] none, base "10.50" at 21% -> preceding[1].tax base "11", amount "2"). Once a reference states
+        # its currency, every later one of the same document states one too.
+        stated = False
         for i in range(rng.choice([1, 1, 2, 3])):
-            r, kind = ref(i, doc)
-            if i == 0 and rng.random() < 0.5:
+            stated = stated or rng.random() < 0.2
+            r, kind = ref(i, doc, stated)
+            if i == 0 and not stated and rng.random() < 0.5:
                 r["tax"], kind = copy.deepcopy(out["totals"]["taxes"]), "own"
             d["preceding"].append(r)
             kinds.append(kind)
@@ -273,8 +290,9 @@ def carried_cases(rng, sources, n_each):
              "lines": []}
         kinds = []
         for i in range(rng.choice([1, 2, 2, 3])):
-            r, kind = ref(i, doc)
-            if i == 0 and rng.random() < 0.5:
+            stated = rng.random() < 0.15          # payment lines take each document's own currency independently
+            r, kind = ref(i, doc, stated)
+            if i == 0 and not stated and rng.random() < 0.5:
                 r["tax"], kind = copy.deepcopy(out["totals"]["taxes"]), "own"
             p["lines"].append({"document": r, rng.choice(["debit", "credit"]): cg.fmt(cg.A(rng.randrange(1, 900000), c))})
             kinds.append(kind)
@@ -299,12 +317,14 @@ def carried_summaries(case, out):
     cur = out.get("currency") or cg.doc_meta(case["document"])[1]
     if out.get("$schema", "").endswith("bill/payment"):
         n = 0
+        mixed = False
         for i, l in enumerate(out.get("lines") or []):
             dr = l.get("document") or {}
             if dr.get("tax") is not None:
                 n += 1
+                mixed = mixed or (dr.get("currency") or cur) != cur
                 found.append(("lines[%d].document.tax" % i, dr["tax"], cg.SUBUNITS[dr.get("currency") or cur], 1))
-        if out.get("tax") is not None:
+        if out.get("tax") is not None and not mixed:    # a merge of summaries in different currencies has no meaning to judge
             found.append(("tax", out["tax"], cg.SUBUNITS[cur], max(1, n)))
     else:
         for i, dr in enumerate(out.get("preceding") or []):
@@ -505,7 +525,7 @@ def run(c):
                      "surcharges, extension-qualified rates, per-combo country overrides, zero and negative totals, with and without an included category, both rules, ES/EL/PT; "
                      "distinct non-trivial = distinct documents whose summary has at least two rate groups; "
                      "carried summaries (streams carried-summary-clauses:*): the calculated summaries of a share of those documents, verbatim or with derived "
-                     "figures missing / stale / bases changed / surcharges dropped or added, carried in preceding[].tax of invoices, orders and deliveries, in "
+                     "figures missing / stale / bases changed (currency's decimals or up to two more) / surcharges dropped or added, with and without a currency of their own, carried in preceding[].tax of invoices, orders and deliveries, in "
                      "payment lines[].document.tax (and merged into the payment's tax), and copied by Invoice.Correct(copy_tax); calculated 1-3 times in one "
                      "process and once more from the serialised result; the same clauses judged on every carried summary that comes out; "
                      "distinct non-trivial there = distinct carrying documents with a surcharge or at least two groups in a carried summary")
